@@ -13,7 +13,9 @@ EXPLANATION = (
     "list seeded with the synthetic source reaches a publishing exit only through the [1:-1] sanitizer (one logged, whitelisted error exit); "
     "(R3) no already augmented graph flows into the base-graph parameter of an st-graph or the G parameter of a k-model; (R4) in every "
     "node-capable class the published paths/walks are condensed whenever the mode may be 'node' (k-models, greedy route, the four "
-    "wrappers); (R5) per-path lists have one entry per layer and _remove_empty_* filters every per-path key that is published.  "
+    "wrappers); (R5) per-path lists have one entry per layer and _remove_empty_* filters every per-path key that is published; (R6) paths "
+    "start/end only where documented: the synthetic source/sink edges are added by the documented disjunctions and node mode maps declared "
+    "starts to 'v.0' and ends to 'v.1' (expansion naming scheme agrees with its reader).  "
     "NOT decided: that the solver returns a point satisfying the rows; simplicity of DAG paths and 'exactly k' follow from the rows."
 )
 DECIDED = ["path/walk-shape constraints present and complete", "synthetic endpoints never reach a public return value",
@@ -86,3 +88,8 @@ def check(prog: Program, rep):
     ns.node_results_condensed(prog, rep, "C01.R4")
     rep.rule("C01.R5", "arity of per-path lists", floor=10)
     ns.arity_rule(prog, rep, "C01.R5")
+    rep.rule("C01.R6", "admissible endpoints: augmentation guards; node mode maps declared starts to the entry and ends to the exit endpoint", floor=6)
+    from rules.c10 import augmentation_guards
+    from rules.c11 import naming_rule
+    augmentation_guards(prog, rep, "C01.R6")
+    naming_rule(prog, rep, "C01.R6")
